@@ -17,6 +17,9 @@ import XsdataModel.Proofs.C09Ns
 import XsdataModel.Proofs.C09Xsi
 import XsdataModel.Proofs.C09Attrs
 import XsdataModel.Proofs.C09Chunks
+import XsdataModel.Proofs.C09NsRel
+import XsdataModel.Proofs.C09Infoset
+import XsdataModel.Proofs.C09XInclude
 
 namespace Props.C09
 open Py Xs.Bind Proofs.C09
@@ -310,6 +313,59 @@ example : (xsiTypeOf Data.benv [(xsiType, "a:T".toList)] [(some "a".toList, "urn
 example : (xsiTypeOf Data.benv [(xsiType, "T".toList)] [(none, "urn:x".toList)]).toOption =
     some (some "{urn:x}T".toList) := by decide
 
+/-! ## 4b. prefix maps, whatever the classes are
+
+`prefix_invariant_partial` asks that *no* field is QName typed.  The parser reads the prefix map
+of an element for three questions about that element's own lexical values only — how a value and
+each of its white space separated tokens resolve as QNames (`QNameConverter.resolve`: QName typed
+fields, `xsi:type`), and how an attribute value reads under `parse_any_attribute` (the wildcard
+attribute heuristic) — so two maps that answer them alike (`strStable`) are interchangeable. -/
+
+/-- **prefix_map_invariant**: for every universe (QName typed fields, xsi:type, `Attributes`
+and wildcard fields included), two documents with the same names, attributes and character data
+whose prefix maps answer, element by element, the three questions about that element's values
+alike (`nsRel`) are parsed to the same result.  Covers: declarations moved between elements, unused
+declarations added or removed, prefixes that no value refers to renamed, a default namespace
+declared or dropped around elements without unprefixed QName values, another order of the map.
+The region of finding c09-any-attr-prefix is exactly the third conjunct of `strStable`:
+`parseAnyAttribute v n = parseAnyAttribute v n'`. -/
+theorem prefix_map_invariant (e : BEnv) (Γ : Ctx) (cfg : ParserConfig) (c : ClassId) (t t' : Tree)
+    (h : nsRel e t t' = true) : parseRoot e Γ cfg c t = parseRoot e Γ cfg c t' :=
+  parseRoot_nsRel e Γ cfg c t t' h
+
+/-- **prefix_map_lookup_only**: the parser uses a prefix map as a lookup function: any rebuilding of
+the maps that keeps every lookup (`dict` order — the native handler's merged dict and lxml's
+`nsmap` differ in it —, shadowed entries) gives the same result. -/
+theorem prefix_map_lookup_only (e : BEnv) (Γ : Ctx) (cfg : ParserConfig) (c : ClassId) (f : NsMap → NsMap)
+    (hf : ∀ n p, (f n).get p = n.get p) (t : Tree) :
+    parseRoot e Γ cfg c (mapNs f t) = parseRoot e Γ cfg c t :=
+  (parseRoot_nsRel e Γ cfg c t (mapNs f t) (nsRel_mapNs e f hf t)).symm
+
+/-- a value without a colon is never touched by the wildcard attribute heuristic -/
+theorem any_attr_heuristic_needs_colon (v : Str) (n : NsMap) (h : v.contains ':' = false) :
+    parseAnyAttribute v n = v :=
+  parseAnyAttribute_nocolon v n h
+
+/-- `<r xmlns:p="urn:p" xmlns:xsi=… xsi:type="p:T" a="7">p:x</r>` and the same document with the
+unused prefix `zz` declared, `xsi` bound once more and the map in another order: related by `nsRel`
+although it carries xsi:type and a value that looks like a QName -/
+def nsDocA : Tree :=
+  .node "r".toList [(xsiType, "p:T".toList), ("a".toList, "7".toList)]
+    [(some "p".toList, "urn:p".toList), (some "xsi".toList, xsiNs)] (some "p:x".toList) [] none
+def nsDocB : Tree :=
+  .node "r".toList [(xsiType, "p:T".toList), ("a".toList, "7".toList)]
+    [(some "zz".toList, "urn:unused".toList), (some "xsi".toList, xsiNs), (some "p".toList, "urn:p".toList)]
+    (some "p:x".toList) [] none
+example : nsRel Data.benv nsDocA nsDocB = true := by decide
+-- … while rebinding `p` is not (the QName value and the xsi:type would change their meaning)
+example : nsRel Data.benv nsDocA
+    (.node "r".toList [(xsiType, "p:T".toList), ("a".toList, "7".toList)]
+      [(some "p".toList, "urn:other".toList), (some "xsi".toList, xsiNs)] (some "p:x".toList) [] none) = false := by decide
+example : ∀ (n : NsMap) (p : Option Str), NsMap.get (n ++ n) p = NsMap.get n p := by
+  intro n p
+  rw [Xs.Backends.get_append]
+  cases NsMap.get n p <;> rfl
+
 /-! ## 5. the excluded region: name-like values of wildcard attributes -/
 
 mutual
@@ -397,5 +453,168 @@ open Xs.Backends in
 example : deferredReads (fun _ => none) chunkWitness = [some "TAIL".toList, none, none] := by decide
 open Xs.Backends in
 example : eagerReads (fun _ => none) chunkWitness = [none, none, none] := by decide
+
+/-! ## 7. from bytes to the result (`Backends/Infoset.lean`)
+
+CDATA sections, character references, encodings, quotes, empty-element tags, comments and
+processing instructions are resolved by the tokeniser.  `TokeniserContract` states what the rest
+of the system relies on — the events are the events of the document's infoset — and the
+correspondence checks it on generated spellings (every rewrite kind, both handlers).  Given the
+contract the theorems above are about bytes. -/
+
+open Xs.Backends in
+/-- **native_reads_infoset**: given the contract, `XmlParser(handler=XmlEventHandler).from_bytes`
+returns what the binding layer makes of the document's infoset with every element's in-scope
+namespaces: the handler's own bookkeeping of prefix maps (`merge_parent_namespaces`, dict order,
+copy-on-declaration) cannot be told from it. -/
+theorem native_reads_infoset (C : TokeniserContract) (e : BEnv) (Γ : Ctx) (cfg : ParserConfig) (c : ClassId)
+    (b : ByteStr) (t : XTree) (h : C.infoset b = some t) :
+    nativeResult C e Γ cfg c b = parseRoot e Γ cfg c (specTree [] t) := by
+  unfold nativeResult
+  rw [C.events_of_infoset b t h, assemble_pump]
+  exact parseRoot_nsRel e Γ cfg c _ _
+    (nsRel_native_spec e t [] [] (by intro p; simp [topMap, get_nil, inScope]))
+
+open Xs.Backends in
+/-- **infoset_invariant**: given the contract, two byte strings — any encodings, any spelling of
+character data, comments and processing instructions anywhere — whose infosets agree up to what
+`nsRel` allows for the prefix maps are parsed to the same result by the native handler. -/
+theorem infoset_invariant (C : TokeniserContract) (e : BEnv) (Γ : Ctx) (cfg : ParserConfig) (c : ClassId)
+    (b b' : ByteStr) (t t' : XTree) (h : C.infoset b = some t) (h' : C.infoset b' = some t')
+    (hrel : nsRel e (specTree [] t) (specTree [] t') = true) :
+    nativeResult C e Γ cfg c b = nativeResult C e Γ cfg c b' := by
+  rw [native_reads_infoset C e Γ cfg c b t h, native_reads_infoset C e Γ cfg c b' t' h']
+  exact parseRoot_nsRel e Γ cfg c _ _ hrel
+
+open Xs.Backends in
+/-- **same_infoset_same_result**: in particular two spellings of one infoset (CDATA / character
+references / encoding / comments / PIs / quotes / empty-element tags differ). -/
+theorem same_infoset_same_result (C : TokeniserContract) (e : BEnv) (Γ : Ctx) (cfg : ParserConfig) (c : ClassId)
+    (b b' : ByteStr) (t : XTree) (h : C.infoset b = some t) (h' : C.infoset b' = some t) :
+    nativeResult C e Γ cfg c b = nativeResult C e Γ cfg c b' := by
+  rw [native_reads_infoset C e Γ cfg c b t h, native_reads_infoset C e Γ cfg c b' t h']
+
+open Xs.Backends in
+/-- `<Plain xmlns:p="urn:p" a="7" b="v"><x>hello</x><y xmlns:q="urn:q">true</y></Plain>` -/
+def plainX : XTree :=
+  .node [("p".toList, "urn:p".toList)] "Plain".toList [("a".toList, "7".toList), ("b".toList, "v".toList)] .passed none
+    [.node [] "x".toList [] .passed (some "hello".toList) [] none,
+     .node [("q".toList, "urn:q".toList)] "y".toList [] .passed (some "true".toList) [] none] none
+
+open Xs.Backends in
+/-- a (toy) tokeniser that satisfies the contract: every byte string spells `plainX` -/
+def toyContract : TokeniserContract := ⟨fun _ => toks plainX, fun _ => some plainX, by intro b t h; cases h; rfl⟩
+
+open Xs.Backends in
+example : Data.primOf (nativeResult toyContract Data.benv Data.ctx {} "Plain".toList []) "y" = some (.bool true) := by
+  decide
+
+/-! ## 8. a document split with XInclude (`Backends/XInclude.lean`)
+
+Both handlers replace every `xi:include` element by the root element of the named document; `T`
+below is the merged document (`xiExpand`: `get_base_url`, `xinclude_loader`,
+`ElementInclude.include`).  The lxml handler then passes every element's in-scope namespaces
+(`mergedResult T`).  The native handler walks an ElementTree, which has forgotten the prefix
+declarations: it parses `T` *with the declarations `iterwalk` invents* — one per namespaced
+element, none for prefixes that only values use, never a default namespace. -/
+
+open Xs.Backends in
+/-- **xinclude_native_reads_redeclared**: exactly what `XmlEventHandler` with
+`process_xinclude=True` returns, for every world (files, `urljoin`), base url and document. -/
+theorem xinclude_native_reads_redeclared (W : XiWorld) (wk : List (Str × Str)) (fuel : Nat) (cfgBase src : Option Str)
+    (root : XTree) (e : BEnv) (Γ : Ctx) (cfg : ParserConfig) (c : ClassId) :
+    nativeXiResult W wk fuel cfgBase src root e Γ cfg c =
+      (xiExpand W fuel cfgBase src root).map fun T => mergedResult (redecl wk T []).1 e Γ cfg c := by
+  unfold nativeXiResult nativeXiCalls mergedResult
+  cases xiExpand W fuel cfgBase src root with
+  | error err => rfl
+  | ok T =>
+    simp only [Except.map, assemble_nativeParseTree, parse_nativeTree]
+
+open Xs.Backends in
+/-- **xinclude_invariant_partial** (values): when every lexical value of the merged document resolves
+under the invented declarations as under the real ones (`nsRel`: no QName content or `xsi:type` that
+uses a prefix or a default namespace, no name-like wildcard attribute value, …) the split document is
+parsed by the native handler like the merged one — and like the lxml handler parses it. -/
+theorem xinclude_invariant_partial (W : XiWorld) (wk : List (Str × Str)) (fuel : Nat) (cfgBase src : Option Str)
+    (root T : XTree) (e : BEnv) (Γ : Ctx) (cfg : ParserConfig) (c : ClassId)
+    (hT : xiExpand W fuel cfgBase src root = .ok T)
+    (h : nsRel e (specTree [] (redecl wk T []).1) (specTree [] T) = true) :
+    nativeXiResult W wk fuel cfgBase src root e Γ cfg c = .ok (mergedResult T e Γ cfg c) := by
+  rw [xinclude_native_reads_redeclared, hT]
+  simp only [Except.map, mergedResult, parseRoot_nsRel e Γ cfg c _ _ h]
+
+open Xs.Backends in
+/-- **xinclude_invariant_partial_types**: the same for every universe without QName typed fields and
+merged documents without xsi:type and name-like wildcard attribute values (under either set of
+declarations), whatever else the values look like. -/
+theorem xinclude_invariant_partial_types (W : XiWorld) (wk : List (Str × Str)) (fuel : Nat) (cfgBase src : Option Str)
+    (root T : XTree) (e : BEnv) (Γ : Ctx) (cfg : ParserConfig) (c : ClassId) (hΓ : ctxNoQ Γ = true)
+    (hT : xiExpand W fuel cfgBase src root = .ok T)
+    (h1 : treeOk (specTree [] (redecl wk T []).1) = true) (h2 : treeOk (specTree [] T) = true) :
+    nativeXiResult W wk fuel cfgBase src root e Γ cfg c = .ok (mergedResult T e Γ cfg c) := by
+  rw [xinclude_native_reads_redeclared, hT]
+  simp only [Except.map, mergedResult]
+  rw [prefix_invariant_partial e Γ cfg hΓ c _ _ h1 h2 (by rw [eraseNs_specTree, eraseNs_specTree, skel_redecl])]
+
+open Xs.Backends in
+/-- the full-strength statement: the split document is parsed like the merged one -/
+def XIncludeInvariant : Prop :=
+  ∀ (W : XiWorld) (wk : List (Str × Str)) (fuel : Nat) (cfgBase src : Option Str) (root T : XTree)
+    (e : BEnv) (Γ : Ctx) (cfg : ParserConfig) (c : ClassId),
+    xiExpand W fuel cfgBase src root = .ok T →
+    nativeXiResult W wk fuel cfgBase src root e Γ cfg c = .ok (mergedResult T e Γ cfg c)
+
+open Xs.Backends in
+/-- `<QRoot xmlns:z="urn:z"><q>z:n1</q></QRoot>`, no include in it at all -/
+def xiWitness : XTree :=
+  .node [("z".toList, "urn:z".toList)] "QRoot".toList [] .passed none
+    [.node [] "q".toList [] .passed (some "z:n1".toList) [] none] none
+
+open Xs.Backends in
+/-- **xinclude_counterexample** (finding c09-native-xinclude-prefixes): QName content loses its
+prefix declaration: `q` is the QName `{urn:z}n1` for the merged document and the unconverted
+string `z:n1` (with a ConverterWarning) for the native handler with `process_xinclude`. -/
+theorem xinclude_counterexample : ¬ XIncludeInvariant := by
+  intro h
+  have := h ⟨fun _ h => h, fun _ => none⟩ [] 10 none none xiWitness xiWitness Data.benv Data.ctxQ {} "QRoot".toList (by rfl)
+  have h2 := congrArg (fun r => match r with | .ok x => Data.primOf x "q" | .error _ => none) this
+  revert h2
+  decide
+
+open Xs.Backends in
+theorem xinclude_witness :
+    (match nativeXiResult ⟨fun _ h => h, fun _ => none⟩ [] 10 none none xiWitness Data.benv Data.ctxQ {} "QRoot".toList with
+      | .ok x => Data.primOf x "q" | .error _ => none) = some (.str "z:n1".toList) ∧
+    Data.primOf (mergedResult xiWitness Data.benv Data.ctxQ {} "QRoot".toList) "q" = some (.qname "{urn:z}n1".toList) := by
+  decide
+
+open Xs.Backends in
+/-- `<Plain a="7"><xi:include href="x.xml"/>…` with `x.xml` = `<x>hello</x>`: expands, and the values pass `nsRel` -/
+def xiWorld : XiWorld :=
+  ⟨fun b h => b ++ h, fun f => if f = "/d/x.xml".toList then some (.node [] "x".toList [] .passed (some "hello".toList) [] none) else none⟩
+open Xs.Backends in
+def xiMain : XTree :=
+  .node [("xi".toList, xiNs)] "Plain".toList [("a".toList, "7".toList)] .passed none
+    [.node [] xiInclude [("href".toList, "x.xml".toList)] .passed none [] (some "\n".toList)] none
+open Xs.Backends in
+example : (match xiExpand xiWorld 10 none (some "/d/".toList) xiMain with
+    | .ok T => nsRel Data.benv (specTree [] (redecl [] T []).1) (specTree [] T) | .error _ => false) = true := by decide
+open Xs.Backends in
+example : (match nativeXiResult xiWorld [] 10 none (some "/d/".toList) xiMain Data.benv Data.ctx {} "Plain".toList with
+    | .ok x => Data.primOf x "x" | .error _ => none) = some (.str "hello".toList) := by decide
+
+/-- **xml_base_witness** (finding c09-lxml-xinclude-xml-base): libxml2's XInclude adds an `xml:base`
+attribute to a root element included from another directory; the binding layer treats it like any
+other attribute: with `fail_on_unknown_attributes` the split document is rejected, the merged one
+(and the native handler's) is not. -/
+theorem xml_base_witness :
+    (match parseRoot Data.benv Data.ctx { failOnUnknownAttributes := true } "Plain".toList
+        (.node "Plain".toList [("a".toList, "7".toList), ("{http://www.w3.org/XML/1998/namespace}base".toList, "sub/p.xml".toList)]
+          [] none [] none) with
+      | .error (.parser _) => true | _ => false) = true ∧
+    Data.primOf (parseRoot Data.benv Data.ctx { failOnUnknownAttributes := true } "Plain".toList
+        (.node "Plain".toList [("a".toList, "7".toList)] [] none [] none)) "a" = some (.int 7) := by
+  decide
 
 end Props.C09
